@@ -10,6 +10,7 @@ use lol_html::html_content::{ContentType, TextType};
 use lol_html::{comments, doc_comments, doc_text, doctype, element, end_tag, text, HtmlRewriter, MemorySettings, Settings};
 use std::cell::RefCell;
 use std::rc::Rc;
+mod sel;
 
 #[derive(Clone, Copy, PartialEq, Eq, Debug)]
 enum Cfg { None, ElemAll, ObserveAll, TextOnly, CommentsOnly, NonMatching, StrictObserve }
@@ -415,6 +416,12 @@ fn main() {
         for &c in ALPHABET { buf.push(c); rec(buf, max_len, prop, max_cuts, rep); buf.pop(); }
     }
     let exhaustive_len = if matches!(prop.as_str(), "C10" | "C11" | "C09") { max_len.min(3) } else { max_len };
+    if prop == "C04" {
+        let r = sel::run_c04(max_len);
+        println!("{{\"property\":\"C04\",\"cases\":{},\"alphabet\":{:?},\"exhaustive_len\":{},\"seed_documents\":{},\"max_cuts\":0,\"selectors\":{},\"unsupported\":{:?},\"violations\":[{}],\"known_class_not_compound\":[{}]}}",
+            r.cases, "tokens: <a> <b> <a class=c> <b id=x k=v> </a> </b> <br> <A K=V> <b class=\"d c\" k=\"v-w\">", max_len, sel::SEED_DOCS.len(), r.selectors, r.unsupported, r.violations.join(","), r.not_compound.join(","));
+        std::process::exit(if r.violations.is_empty() { 0 } else { 1 });
+    }
     if prop == "C08" {
         fn recp(buf: &mut Vec<u8>, max_len: usize, rep: &mut Report) {
             check_payload(buf, rep);
